@@ -5,7 +5,7 @@
    the clone") is named in the trusted base and is what the differential run
    validates on the real code after every step. *)
 From Coq Require Import List.
-From YV Require Import Proofs.DocProofs.
+From YV Require Import Proofs.DocProofs Base.Ticket Crdt.TextRGA Proofs.OptOutWitness.
 
 Theorem C08_failed_update_is_noop :
   forall (R Op Edit : Type) (exec : R -> Op -> option R) (run_edit : R -> Edit -> option (R * list Op))
@@ -25,3 +25,13 @@ Theorem C08_clone_equals_root :
     consistent _ _ (fold_left (fun d eo => update _ _ _ exec run_edit d (fst eo) (snd eo)) l d).
 Proof. exact updates_consistent. Qed.
 Print Assumptions C08_clone_equals_root.
+
+(* finding P6: [proxy_agrees] fails for an opt-out attachment (WithDisableGC).  The clone gets the
+   edit as a local edit, the root executes the change with its own version vector, which names the
+   author only: a character somebody else typed is deleted on the clone and kept on the root *)
+Theorem C08_optout_proxy_disagrees_refuted :
+  option_map visible oo_on_clone = Some (98%N :: nil) /\
+  option_map visible oo_on_root = Some (97%N :: 98%N :: nil) /\
+  option_map visible oo_on_root_with_full_vector = Some (98%N :: nil).
+Proof. exact optout_delete_clone_and_root_differ. Qed.
+Print Assumptions C08_optout_proxy_disagrees_refuted.
